@@ -8,6 +8,7 @@ import (
 	"flag"
 	"fmt"
 	"os"
+	"path/filepath"
 	"sort"
 	"strconv"
 	"strings"
@@ -77,6 +78,10 @@ func (e *pdEngine) Gen(r *hlib.Rand, tier string) []string {
 		case x < 95:
 			ops = append(ops, "pd.snap")
 		default:
+			if r.Chance(35) {
+				ops = append(ops, "pd.torn", "pd.snap")
+				continue
+			}
 			ops = append(ops, "pd.restart", "pd.snap", "pd.get "+hlib.Hex(rkey(r)))
 		}
 	}
@@ -194,7 +199,21 @@ func (e *pdEngine) Exec(ops []string) []string {
 			} else {
 				out[i] = strconv.FormatUint(resp.GetRegion().GetId(), 10)
 			}
-		case "pd.snap", "pd.restart":
+		case "pd.snap", "pd.restart", "pd.torn":
+			if f[0] == "pd.torn" {
+				// a crash that left only the 4-byte length prefix of the next manifest record: close,
+				// append the prefix to the live manifest, restart (recovery must drop the torn tail)
+				st.Close()
+				if cur, err := os.ReadFile(filepath.Join(dir, "CURRENT")); err == nil {
+					name := strings.TrimSpace(string(cur))
+					if fh, err := os.OpenFile(filepath.Join(dir, name), os.O_WRONLY|os.O_APPEND, 0); err == nil {
+						_, _ = fh.Write([]byte{0, 0, 0, 24})
+						_ = fh.Close()
+					}
+				}
+				open()
+				e.restarts++
+			}
 			if f[0] == "pd.restart" {
 				st.Close()
 				open()
